@@ -5,7 +5,7 @@
 Require Import List NArith ZArith Bool.
 Import ListNotations.
 Require Import LV.PropTree.PropModel LV.PropTree.DocSpec LV.PropTree.PropProofs LV.PropTree.QuoteProofs
-        LV.PropTree.RebuildProofs LV.PropTree.ApiProofs.
+        LV.PropTree.RebuildProofs LV.PropTree.ApiProofs LV.PropTree.WfProofs.
 
 (* For every sequence of set / delete / get / type / count / keys / get_subtree / set_subtree
    operations (including the compound "set_subtree, then set / delete on the returned anchor") the
@@ -57,19 +57,38 @@ Proof. exact (parse_quote_key_two k k2). Qed.
 Print Assumptions c13_quote_key_nested.
 
 (* ---------------------------------------------------------------- operation sequences with copy.
-   The same refinement for EVERY op sequence including vnaproperty_copy out of and into subtrees,
-   along which the states stay well-formed (map keys non-empty and distinct - what the API builds -
-   and lists shorter than 2^31 - 1).  Partial: that the modifying calls preserve well-formedness
-   is a hypothesis here (wf_run), not a theorem. *)
-Theorem c13_prop_refines_doc_partial (ops : list op) (s : state) :
-  wf_run s ops ->
-  d_run (abs_state s) ops = (abs_state (fst (run s ops)), map abs_out (snd (run s ops))).
-Proof. exact (sim_run ops s). Qed.
-Print Assumptions c13_prop_refines_doc_partial.
+   prop_refines_doc: for EVERY op sequence - vnaproperty_copy out of and into subtrees included -
+   started from the empty state (or from any well-formed state), during which no list reaches
+   2^31 - 1 elements (lens_run; beyond that "%d" of an index no longer reads back and
+   vnaproperty_count cannot represent the length), the abstraction of the model state is the
+   abstract document's state and every outcome is the specification's. *)
+Theorem c13_prop_refines_doc (ops : list op) :
+  lens_run init_state ops ->
+  d_run d_init ops = (abs_state (fst (run init_state ops)), map abs_out (snd (run init_state ops))).
+Proof. exact (sim_run_from_empty ops). Qed.
+Print Assumptions c13_prop_refines_doc.
 
-Theorem c13_prop_refines_doc_satisfiable : wf_run init_state example_ops.
-Proof. exact wf_run_example. Qed.
+Theorem c13_prop_refines_doc_from (ops : list op) (s : state) :
+  wf_state s -> lens_run s ops ->
+  d_run (abs_state s) ops = (abs_state (fst (run s ops)), map abs_out (snd (run s ops))).
+Proof. exact (sim_run_full ops s). Qed.
+Print Assumptions c13_prop_refines_doc_from.
+
+(* the hypothesis is met by a script with sets, an append, set_subtree, copies and a delete *)
+Theorem c13_prop_refines_doc_satisfiable : lens_run init_state example_ops.
+Proof. exact lens_run_example. Qed.
 Print Assumptions c13_prop_refines_doc_satisfiable.
+
+(* invariant behind it: every operation keeps map keys non-empty and pairwise distinct *)
+Theorem c13_wellformed_invariant (s : state) (o : op) :
+  wf_state s -> lens_state (fst (step s o)) -> wf_state (fst (step s o)).
+Proof. exact (step_wf s o). Qed.
+Print Assumptions c13_wellformed_invariant.
+
+(* every key the descriptor parser produces is non-empty *)
+Theorem c13_parsed_keys_nonempty (d : bytes) es t r : parse d = Some (es, t, r) -> Forall key_ok es.
+Proof. exact (parse_keys d es t r). Qed.
+Print Assumptions c13_parsed_keys_nonempty.
 
 (* vnaproperty_copy is a deep copy (DP1 fixed): whatever the destination held, for every
    well-formed source, including empty maps and lists at any depth. *)
